@@ -67,8 +67,8 @@ def _check_path(path):
 
 def _norm_path(working_dir, path):
     path = fspath(path)
-    if os.path.isabs(path):
-        return path
+    # Absolute paths are normalised too, so that e.g. "/p/d/../x" and "x" (in
+    # "/p") are recognised as the same file.
     return os.path.abspath(os.path.join(working_dir, path))
 
 
